@@ -60,9 +60,11 @@ def gen_case(rng: Rng, i: int, tier: str):
             case["tree"] = []
             if case["fault"] != "none":
                 # damage can only be noticed where a checksum covers it (C04): per-member or per-folder CRCs, header CRC
-                if case["ref"]["layout"].get("crc") == "none":
+                if case["ref"]["layout"].get("crc") in ("none", "folder_partial"):
                     case["ref"]["layout"]["crc"] = r.pick(["substream", "folder"])
                 case["ref"]["layout"]["header_crc"] = True
+                for fo in case["ref"]["layout"]["folders"]:
+                    fo.pop("orphan", None)  # data that belongs to no member: damage there harms nobody
             return case
         case["kind"] = kind = "roundtrip"
     if kind == "roundtrip":
